@@ -1,7 +1,12 @@
 use std::{
-    sync::{Arc, Mutex},
+    sync::Arc,
     task::{Context, Wake},
 };
+
+#[cfg(crux_verif)]
+use crate::verif::sync::Mutex;
+#[cfg(not(crux_verif))]
+use std::sync::Mutex;
 
 use crossbeam_channel::{Receiver, Sender};
 use futures::{future, Future, FutureExt};
